@@ -10,10 +10,10 @@ import (
 
 type jm = map[string]any
 
-func c13Lit(v any) any      { return jm{"k": "lit", "v": v} }
-func c13Csv(v ...any) any   { return jm{"k": "csv", "v": v} }
-func c13Empty() any         { return jm{"k": "empty"} }
-func c13Text(v any) string  { b, _ := json.Marshal(v); return string(b) }
+func c13Lit(v any) any     { return jm{"k": "lit", "v": v} }
+func c13Csv(v ...any) any  { return jm{"k": "csv", "v": v} }
+func c13Empty() any        { return jm{"k": "empty"} }
+func c13Text(v any) string { b, _ := json.Marshal(v); return string(b) }
 func c13Opts(skip, multi bool) jm {
 	return jm{"skip": skip, "multi": multi, "excludeBody": false, "roDisabled": false}
 }
